@@ -186,7 +186,7 @@ prop("C05", "exploration", (300, 6000),
      note="Only delta~1-far deviations are used (random other function, doubled degree); deviations close to a codeword are legitimately accepted with noticeable probability and are not in the catalogue. "
           "Batched instances are generated so that the folding schedule meets every smaller degree exactly (an assert of the batched prover).")
 
-prop("C09", "exploration", (300, 6000),
+prop("C09", "exploration", (1000, 20000),
      rule="one run = one STARK instance from the simulator's family (definitions are data: polynomial first-row / last-row / transition / every-row constraints of degree 0-4 over 2-8 columns and 0-4 public inputs, "
           "including a definition without constraints = no quotient; recurrence traces of 2^2..2^10 rows; StarkConfig: 1-3 challenges, rate 1-3, cap, pow, Fixed/ConstantArity/MinSize, Poseidon/Keccak) under a seeded schedule. "
           "Cases: honest prove+verify; single trace-cell faults at rows {0, 1, mid, n-2, n-1 (wrap-around)}; a prover using a changed public input; element and list faults on every component of the accepted proof and its public inputs. "
@@ -196,38 +196,18 @@ prop("C09", "exploration", (300, 6000),
      text="Seeded exploration of a family of STARK definitions in both directions: satisfying traces (also after changing unconstrained cells) prove and verify, every single-cell or public-input violation and every tampered proof is rejected.",
      note="The family is defined in the simulator (the repository's example STARKs are test-only); lookups and cross-table lookups are C10. Build variant v0 has debug assertions off, so the shipped prover reaches the verifier with violating traces.")
 
-prop("C10", "exploration", (200, 4000),
-     rule="one run = one STARK table with column lookups: 1-3 looking columns (single, scaled with constant, linear combination with another column, next-row), optional 0/1 filter columns (boolean-ness stated as a constraint), "
-          "a table column (arithmetic progression, optionally with repeated values) and a frequencies column; declared constraint degree 2 or 3; traces of 2^1..2^9 rows; all StarkConfigs. "
-          "Cases: honest prove+verify; single-value faults: a looking value altered / random / replaced by another table value (present but frequencies no longer match), a looked (table) value altered incl. first and last row, "
-          "a frequency +1 / zeroed, a filter flipped. Oracle: multiset equality of filtered looking values and table values weighted by frequencies, computed directly by the simulator: unequal => no accepted proof, still equal => accepted. "
+prop("C10", "exploration", (300, 6000),
+     rule="one run = either (2/3) one STARK table with column lookups: 1-3 looking columns (single, scaled with constant, linear combination with another column, next-row), optional 0/1 filter columns (boolean-ness stated as a constraint), "
+          "a table column (arithmetic progression, optionally with repeated values) and a frequencies column; constraint degree 2 or 3; 2^1..2^9 rows; or (1/3) a multi-table system of 2-3 tables (2^2..2^5 rows each, different lengths) with 1-2 cross-table lookups "
+          "(several looking tables, a looking table repeated with another column set and filter = helper columns, two lookups over the same tables, value tuples of width 1-2, repeated tuples, 1-3 challenges), proved and verified by a small multi-table node that follows the "
+          "documented flow (commit all traces, observe all caps, get_ctl_data, per table prove_with_commitment, per table CtlCheckVars::from_proof + verify_stark_proof_with_challenges, verify_cross_table_lookups). "
+          "Cases: the honest system; single-value faults: a looking value altered / random / replaced by another table value, a looked value altered, a frequency +1 / zeroed, a filter flipped on either side (value missing / extra), an inactive row changed. "
+          "Oracle: multiset equality of filtered looking rows and looked rows (with frequencies for column lookups) computed directly: unequal => rejected at one of the verification stages (or prover error), still equal => accepted. "
           "distinct = (instance, config, fault); non-trivial = the direct multiset check finds the fault violating",
-     technique="deterministic simulation: STARK lookup workloads with single-value faults on looking side, looked side, frequencies and filters; direct multiset oracle",
-     text="Seeded exploration of STARK column lookups in both directions with a multiset oracle that shares no code with the logUp argument.",
-     note="Covers lookups inside one table (starky::lookup). Cross-table lookups (starky::cross_table_lookup: get_ctl_data / CtlCheckVars / verify_cross_table_lookups) are NOT yet exercised by this check; helper and running-sum columns are computed inside the prover and cannot be corrupted through the API.")
-
-prop("C06", "exploration", (48, 1200),
-     rule="one run = one aggregator scenario: an inner circuit (seeded program, recursion-compatible configuration: Poseidon, with/without lookups and zero-knowledge, 1-3 challenges, arities, 2-8 queries, cap heights) "
-          "and an outer circuit (add_virtual_proof_with_pis + verify_proof + re-exposed public inputs; Poseidon or Keccak outer configuration) built once; a case = one inner proof handed to the aggregator: "
-          "the honest proof; ~24 (thorough 60) element faults and 4 list faults over all proof components (caps, openings, query-round leaves / siblings / coset evaluations, commit caps, final polynomial, pow witness, public inputs); "
-          "proofs of false statements from the Byzantine prover (cell faults); single-check proofs from the strategy hooks H1 (all-zero accumulator), H2 (quotient altered for each challenge index), H4 (grinding witness), H5 (final polynomial). "
-          "Oracle: native verify(proof).is_ok()  <=>  the library's own set_proof_with_pis_target + set_verifier_data_target + witness generation succeed AND the independent statement checker is satisfied on the outer witness; "
-          "for the first agreeing accept the outer proof is also proved, verified and its public inputs compared with the inner ones. distinct = (scenario, inner proof fault); non-trivial = the inner proof differs from the honest one (or is the honest one)",
-     technique="deterministic simulation: aggregator node fed valid, faulted and single-check inner proofs; the native verifier is the reference model for the in-circuit verifier",
-     text="Seeded exploration of the in-circuit verifier against the native verifier as reference model, with inner proofs that fail exactly one native check so that a check missing only in the circuit version is not masked.",
-     note="Outer acceptance is decided by witness generation + the statement checker SAT (which trusts the gates' eval_filtered); one outer proof per scenario is fully proved and verified. Inner circuits are kept <= 2^9 rows and <= 8 queries so that the outer circuit stays at 2^10-2^12 rows.")
-
-prop("C20", "exploration", (36, 600),
-     rule="one run = either (11/12) a conditional aggregator for one inner circuit shape (seeded program x recursion-compatible configuration; a sibling circuit with the same common data and another key is obtained by changing one constant): "
-          "inner (proof, key) variants {valid, element-tampered, false statement from the Byzantine prover, valid proof of the sibling circuit, right proof with the sibling's key, sibling's proof with the right key}; "
-          "cells of the matrix condition x variant0 x variant1 for conditionally_verify_proof (every cell in which the two branches differ in validity, a third of the others) and condition x variant for conditionally_verify_proof_or_dummy; "
-          "the dummy proof of dummy_circuit(common) verifies; or (1/12) a cyclic chain of length 1-3 after the base case (cyclic_base_proof): every link proves, verifies, passes check_cyclic_proof_verifier_data and carries reference-correct "
-          "public inputs (textbook Poseidon iteration, counter), and +1 on EVERY embedded verifier-data element is caught by check_cyclic_proof_verifier_data (every 7th also through verify). "
-          "Oracle for the matrix: outer assignment + witness generation + statement checker accept  <=>  the native verifier accepts the SELECTED proof under the SELECTED key. "
-          "distinct = (scenario, cell); non-trivial = the two branches differ in validity (conditional), every cell (or-dummy, cyclic)",
-     technique="deterministic simulation: aggregator with two inner proofs and a condition (full validity matrix), dummy branch, and cyclic chains as histories; native verifier as reference model",
-     text="Seeded exploration of conditional verification as a matrix over condition and validity of each branch and key, and of cyclic recursion as multi-step histories with alteration of the embedded verifier data.",
-     note="Shapes for which the library's dummy_circuit cannot reproduce the common data (a build-time assert) or whose cap height differs from the outer configuration's are outside the or-dummy variant's preconditions and skip that part (probe counts both). Cyclic chains use the standard recursion configuration (2^12-row circuit).")
+     technique="deterministic simulation: STARK lookup and multi-table cross-table-lookup workloads with single-value faults on looking side, looked side, frequencies and filters; direct multiset oracle",
+     text="Seeded exploration of STARK column lookups and cross-table lookups in both directions with a multiset oracle that shares no code with the logUp / running-sum arguments; the multi-table driver is validated in the fault-free configuration on every run.",
+     note="Cross-table topologies are restricted to what the library supports: constraint degree 3, the looked table not among its looking tables, sides of a repeated looking table adjacent (the prover groups them with a consecutive group_by). "
+          "Helper and running-sum columns are computed inside the prover and cannot be corrupted through the API. Extra looking values (ctl_extra_looking_sums) are not exercised.")
 
 prop("C11", "exploration", (48, 1200),
      rule="one run = one STARK aggregator scenario: a STARK definition from the simulator's family (1/4 with column lookups; also definitions without quotient), a recursion-compatible StarkConfig (ConstantArityBits, 1-4 queries, 1-3 challenges), "
